@@ -27,6 +27,7 @@ Where the property text is FALSE of the code (kept visible below, each with a wi
   Q5    an anonymous head keeps a mark across its exit                     → `headless_mark_survives_exit`
 -/
 import Hfsm.Proofs.PlanExec
+import Hfsm.Proofs.Reach
 
 namespace Hfsm.Props.C06
 open Hfsm Hfsm.World
@@ -724,5 +725,61 @@ Theorems that constitute property C06 (for Props/INDEX.json)
     guard_mark_survives_update  headless_mark_survives_exit
   not modelled: the library's default `planSucceeded`/`planFailed` bodies (see `default_handler_marks_head`).
 -/
+
+end Hfsm.Props.C06
+
+/-! ## end-to-end (composition with C01)
+
+The theorems of C06 are about `World.runTasks`, `Node.updatePlans`, `Node.exit` for an ARBITRARY tree and world:
+none of them has a well-formedness hypothesis (`Act`, `NoMarks`, …), so there is nothing of C01's invariant to
+discharge.  Their hypotheses are case distinctions on the plan data of the world (head status, sub-status, plan
+content, queue room) — not consequences of reachability: every combination occurs in reachable instances (the
+`example`s of the last section are all reached by API calls from `Mach.create`).  What does follow from
+reachability (`ReachableOf shape cfg m`, Proofs/Reach.lean) is that the switches and bounds are those the
+instance was CONSTRUCTED with: -/
+namespace Hfsm.Props.C06
+open Hfsm Hfsm.World
+variable {U : Type} [UtilArith U] {shape : Shape} {cfg : Config} {m : Mach U}
+
+/-- every `update()` of a reachable instance constructed with plans ends its passes without any success /
+failure mark or region status, before the queued requests are processed -/
+theorem update_clears_marks_reachable (h : ReachableOf shape cfg m) (hp : cfg.plans = true) :
+    m.update = ({ m with w := m.updatePasses }).processRequest ∧ m.updatePasses.NoStatus :=
+  update_clears_marks m (by rw [h.cfg_plans]; exact hp)
+
+theorem react_clears_marks_reachable (h : ReachableOf shape cfg m) (hp : cfg.plans = true) :
+    m.react = ({ m with w := m.reactPasses }).processRequest ∧ m.reactPasses.NoStatus :=
+  react_clears_marks m (by rw [h.cfg_plans]; exact hp)
+
+/-- … and the whole call leaves none when its passes queued no request -/
+theorem update_quiet_no_marks_reachable (h : ReachableOf shape cfg m) (hp : cfg.plans = true)
+    (hq : m.updatePasses.requests = []) : m.update.w.NoStatus :=
+  update_quiet_no_marks m (by rw [h.cfg_plans]; exact hp) hq
+
+theorem react_quiet_no_marks_reachable (h : ReachableOf shape cfg m) (hp : cfg.plans = true)
+    (hq : m.reactPasses.requests = []) : m.react.w.NoStatus :=
+  react_quiet_no_marks m (by rw [h.cfg_plans]; exact hp) hq
+
+/-- `succeed(sid)` / `fail(sid)` through the API of a reachable instance: stored for every state of the
+declaration except the root -/
+theorem api_mark_is_stored_reachable (h : ReachableOf shape cfg m) (sid : Nat)
+    (hs : 0 < sid ∧ sid < shape.stateCount) :
+    bit (m.setTask sid true).w.succ sid = true ∧ bit (m.setTask sid false).w.fail sid = true :=
+  api_mark_is_stored m sid (by rw [h.stateCount]; exact hs)
+
+/-- the walk of a region's plan during a call on a reachable instance issues at most `cfg.queueCap` requests
+in total: the queue bound of `walk_requests` is the capacity given at construction -/
+theorem walk_requests_reachable (h : ReachableOf shape cfg m) (head : Nat) (p : List Task) (w : World U)
+    (hw : w.cfg = m.w.cfg) (clr : Nat) :
+    (World.runTasks head p w clr).2.1.requests =
+      w.requests ++ ((executed w.activeSnap w.succ p).map (Task.issued head)).take
+        (cfg.queueCap - w.requests.length) := by
+  rw [walk_requests, hw, h.cfg_queueCap]
+
+/-- a concrete non-trivial reachable instance exists; it was constructed with plans -/
+example : Reachable (Api.run Demo.mach Demo.prog) := Demo.reachable.reachable
+example : ∃ m : Mach Demo.DU, ReachableOf Demo.shape Demo.cfg m ∧ Demo.cfg.plans = true ∧
+    0 < 1 ∧ 1 < Demo.shape.stateCount :=
+  ⟨_, Demo.reachable, by decide, by decide, by decide⟩
 
 end Hfsm.Props.C06
